@@ -121,15 +121,16 @@ def build(work, tier):
     import iq
     kits = [kit]
     import ext
-    for fn in (iq.payload_proofs, iq.header_proofs, iq.item_proofs, ext.jmi_proofs, ext.error_proofs):
+    for fn in (iq.payload_proofs, iq.header_proofs, iq.item_proofs, ext.jmi_proofs, ext.pt_proofs, ext.content_proofs, ext.he_proofs, ext.error_proofs):
         k, ps = fn('C02', work, mk_proof, 'fixpoint')
-        kits.append(k)
+        if k is not None:
+            kits.append(k)
         proofs += ps
     if tier != 'thorough':
         # quick tier: the finding-restricted runs of the two largest composites only repeat what the member codec's own run
         # reports, and the (bounded, 160 s) fixpoint run of Sasl2::StreamFeature is left to the thorough tier
         proofs = [p for p in proofs if not ((getattr(p, 'finding', None) and p.id.split('_fixpoint')[0] in ('Sasl2Success', 'Sasl2StreamFeature')) or p.id.startswith('Sasl2StreamFeature_'))]
-    text_all = open(os.path.join(QT, 'xml.h')).read() + open(os.path.join(QT, 'conv.h')).read() + open(os.path.join(QT, 'opaque.h')).read() + codec.MODEL_GLUE + iq.TZO_MODEL + iq.HDR_STUBS + iq.presence.STUBS + iq.ITEM_MODEL + ext.JMI_STUBS
+    text_all = open(os.path.join(QT, 'xml.h')).read() + open(os.path.join(QT, 'conv.h')).read() + open(os.path.join(QT, 'opaque.h')).read() + codec.MODEL_GLUE + iq.TZO_MODEL + iq.HDR_STUBS + iq.presence.STUBS + iq.ITEM_MODEL + ext.JMI_STUBS + ext.PT_MODEL + ext.CT_STUBS + ext.HE_MODEL
     npad = sum(t.count('xw_pad(') for k in kits for t in k.texts.values())
     functions, seen = [], set()
     for k in kits:
